@@ -2,6 +2,7 @@ package checks
 
 import (
 	"fmt"
+	"strings"
 
 	"pgregory.net/rapid"
 	"verif/lib/refint"
@@ -91,6 +92,14 @@ func (g *progGen) visibleKind(name string) (refint.Kind, bool) {
 
 func (g *progGen) mark() *tw.Stmt {
 	g.marker++
+	// one marker in six starts with a parenthesis or a quote: text directly
+	// after @else/@end/@break/@continue or a header's ")" must stay text
+	switch rapid.IntRange(0, 11).Draw(g.rt, "markerForm") {
+	case 0:
+		return tw.Text(fmt.Sprintf("(%d)", g.marker))
+	case 1:
+		return tw.Text(fmt.Sprintf("(m%d, x)", g.marker))
+	}
 	return tw.Text(fmt.Sprintf("<%d>", g.marker))
 }
 
@@ -260,11 +269,19 @@ func (g *progGen) compStmt(depth int) *tw.Stmt {
 			sb := g.block(depth-1, false)
 			g.inComp = true
 			g.pop()
+			if len(sb) > 0 && sb[0].Kind == tw.SText && strings.HasPrefix(sb[0].Text, "(") {
+				// "@slot(" would open a slot name
+				sb = append([]*tw.Stmt{tw.Text("~")}, sb...)
+			}
 			g.Feat["slot-body"]++
 			st.Slots = append(st.Slots, &tw.Stmt{Kind: tw.SSlot, Name: "", Body: sb, Text: rapid.SampledFrom([]string{"\n", " ", ""}).Draw(g.rt, "slotWs")})
 			st.Text = rapid.SampledFrom([]string{"\n", "", " "}).Draw(g.rt, "endWs")
 		}
-		body = append(body, g.block(depth-1, false)...)
+		rest := g.block(depth-1, false)
+		if len(rest) > 0 && rest[0].Kind == tw.SText && strings.HasPrefix(rest[0].Text, "(") {
+			rest = append([]*tw.Stmt{tw.Text("~")}, rest...)
+		}
+		body = append(body, rest...)
 	}
 	body = append(body, tw.Text("</"+name+">"))
 	g.pop()
